@@ -57,6 +57,7 @@ def cpython_sig(toks, src):
     out = []
     depth = 0
     layout = []     # (kind, (line, col)) of COMMENT / NL tokens
+    open_indents = []     # one flag per open reference INDENT: True = artefact of an empty logical line (dropped)
     start = None
     line_has_token = False
 
@@ -97,9 +98,21 @@ def cpython_sig(toks, src):
             line_has_token = True
         if n in ('ASYNC', 'AWAIT'):
             n = 'NAME'
-        if n == 'DEDENT' and out and out[-1][0] == 'INDENT':
-            out.pop()          # INDENT/DEDENT around an empty logical line (' \\\n\n'): same artefact
-            continue
+        if n == 'INDENT':
+            if out and out[-1][0] == 'INDENT':
+                # Two INDENTs with nothing between them cannot occur in a program the compiler accepts (an INDENT is followed by a
+                # statement): the first one belongs to an empty logical line (' \\\n\n  s' - a physical line that holds only a
+                # backslash continuation, then a blank line) of the pure-Python reference tokenizer.  It is dropped together with
+                # its DEDENT.
+                out.pop()
+                open_indents[-1] = True
+            open_indents.append(False)
+        if n == 'DEDENT':
+            if open_indents and open_indents.pop():
+                continue
+            if out and out[-1][0] == 'INDENT':
+                out.pop()          # INDENT/DEDENT around an empty logical line (' \\\n\n'): same artefact
+                continue
         if n in ('INDENT', 'DEDENT', 'ENDMARKER'):
             out.append((n, '', l1 if n == 'INDENT' else None))
         else:
@@ -116,6 +129,7 @@ def cpython_sig(toks, src):
     return out, layout
 
 
+LONE_CONT = re.compile(r'(?m)^[ \t\f]*\\\r?\n')
 _FPRE = re.compile(r'''(?i)^(?:rf|fr|f)(\'\'\'|"""|\'|")''')
 
 
@@ -209,6 +223,12 @@ class C10(Prop):
             return Outcome(excluded='reference tokenize error/ERRORTOKEN')
         if not self_consistent(r['tokens'], code):
             return Outcome(excluded='reference token stream not self-consistent')
+        if client.JUDGE[v] not in ('3.12', '3.13') and LONE_CONT.search(code):
+            # Up to 3.11 the tokenize module is a pure-Python re-implementation; for a physical line that holds nothing but a backslash
+            # continuation it disagrees with the tokenizer the compiler uses (it measures indentation on that line:
+            # 'while x:\n while x:\n\\\n    s' compiles, but tokenize puts `s` at top level).  From 3.12 on tokenize *is* the C
+            # tokenizer, so the layout is still explored there.
+            return Outcome(excluded='lone continuation line and a pure-Python reference tokenizer (<= 3.11)')
         trigger = FF_INDENT.search(code) is not None
         try:
             if len(code) % 2:
